@@ -63,6 +63,11 @@ func execConc(op string, args []string) string {
 			return "bad-op"
 		}
 		return runTransportScript(args[0])
+	case "verify2":
+		if len(args) < 2 {
+			return "bad-op"
+		}
+		return runVerify2(args[0], args[1])
 	case "race_dns", "race_fetch", "race_transport", "race_eventid", "race_event_readonly":
 		return runRaceOp(op, args)
 	}
@@ -424,6 +429,7 @@ func genConc(o *Out, tier string, r *Rng) {
 	genConcDNS(o, tier, r)
 	genConcFetch(o, tier, r)
 	genConcFetch2(o, tier, r)
+	genConcVerify2(o, tier, r)
 	genConcTransport(o, tier, r)
 	genConcRace(o, tier, r)
 }
